@@ -68,6 +68,13 @@ func (s *sessGen) ty(depth int, top bool) *ast.Ty {
 		return ast.Tensor(m, s.ty(depth-1, false), s.ty(depth-1, false))
 	case k == 3:
 		return ast.Lolli(m, s.ty(depth-1, false), s.ty(depth-1, false))
+	case k == 4 && g.Chance(50, "sessshift"):
+		// a shift from the scenario's mode to itself: the protocol stays at one mode, the shift and
+		// cast rules are exercised all the same
+		if g.Bool("sessup") {
+			return ast.Up(m, s.ty(depth-1, false))
+		}
+		return ast.Down(m, s.ty(depth-1, false))
 	}
 	n := g.Int(1, 3, "sessnbr")
 	ls := s.distinctLabels(n)
@@ -94,6 +101,8 @@ func (s *sessGen) rankTy(t *ast.Ty) int {
 		return 0
 	case ast.KName:
 		return s.rank[t.Name]
+	case ast.KUp, ast.KDown:
+		return sat(1 + s.rankTy(t.L))
 	case ast.KTensor, ast.KLolli:
 		l, r := s.rankTy(t.L), s.rankTy(t.R)
 		if r > l {
@@ -141,13 +150,20 @@ func (s *sessGen) polarity(t *ast.Ty) int {
 	for t.K == ast.KName {
 		t = s.defs[t.Name]
 	}
-	if t.K == ast.KWith || t.K == ast.KLolli {
+	if t.K == ast.KWith || t.K == ast.KLolli || t.K == ast.KUp {
 		return -1
 	}
 	return 1
 }
 
-func (s *sessGen) ann(t *ast.Ty) *ast.Ty { return annOf(s.m, t) }
+func (s *sessGen) ann(t *ast.Ty) *ast.Ty {
+	if t.IsShift() {
+		c := t.Clone() // a shift states its own modes; a head annotation in front of it is F15's shape
+		c.Ann = ""
+		return c
+	}
+	return annOf(s.m, t)
+}
 func (s *sessGen) one() *ast.Ty         { return annOf(s.m, ast.One(s.m)) }
 
 func (s *sessGen) followP(name string) string {
@@ -232,6 +248,12 @@ func (s *sessGen) prov(w ast.Nm, t *ast.Ty, budget int) *ast.Term {
 		q := g.fresh("q")
 		return tPrint(g.plabel("o"), s.cutOf(q, t.Brs[i].T, s.prov(ast.SelfNm, t.Brs[i].T, budget),
 			&ast.Term{Kind: ast.TSel, X: w, Label: t.Brs[i].L, Y: ast.N(q)}))
+	case ast.KUp:
+		w2 := g.fresh("s")
+		return &ast.Term{Kind: ast.TShift, X: ast.N(w2), Z: w, K: tPrint(g.plabel("h"), s.prov(ast.N(w2), t.L, budget))}
+	case ast.KDown:
+		q := g.fresh("q")
+		return s.cutOf(q, t.L, s.prov(ast.SelfNm, t.L, budget), &ast.Term{Kind: ast.TCast, X: w, Y: ast.N(q)})
 	case ast.KWith:
 		c := &ast.Term{Kind: ast.TCase, X: w}
 		nb := budget
@@ -299,6 +321,12 @@ func (s *sessGen) cons(x string, t *ast.Ty, k *ast.Term, budget int) *ast.Term {
 		p, q := g.fresh("p"), g.fresh("q")
 		return s.cutOf(p, t.L, s.prov(ast.SelfNm, t.L, budget),
 			s.cutOf(q, t.R, &ast.Term{Kind: ast.TSend, X: ast.N(x), Y: ast.N(p), Z: ast.SelfNm}, s.cons(q, t.R, k, budget)))
+	case ast.KUp:
+		q := g.fresh("q")
+		return s.cutOf(q, t.L, &ast.Term{Kind: ast.TCast, X: ast.N(x), Y: ast.SelfNm}, s.cons(q, t.L, k, budget))
+	case ast.KDown:
+		y := g.fresh("y")
+		return &ast.Term{Kind: ast.TShift, X: ast.N(y), Z: ast.N(x), K: tPrint(g.plabel("d"), s.cons(y, t.L, k, budget))}
 	case ast.KPlus:
 		c := &ast.Term{Kind: ast.TCase, X: ast.N(x)}
 		nb := budget
@@ -354,7 +382,9 @@ func (g *ProgGen) sessionScenario(k int) {
 	recursive := false
 	for _, nm := range s.order {
 		d := s.defs[nm]
-		d.Ann = s.m.String()
+		if !d.IsShift() {
+			d.Ann = s.m.String()
+		}
 		d.Walk(func(t *ast.Ty) {
 			if t.K == ast.KName {
 				recursive = true
